@@ -25,6 +25,19 @@
 (* FALSE/FALSE is the behaviour the property asks for and is what the      *)
 (* invariants are checked against; TRUE/TRUE is the prediction used for    *)
 (* drift accounting against the real code.                                 *)
+(*                                                                         *)
+(* Request-local failures made by the REAL resolver (gap C20-r3-1): the     *)
+(* marks in ShedMarks are not scripted.  For those rows the rest of the     *)
+(* chain IS middleware/resolver's DNSHandler, refusing the query in its     *)
+(* load-shed branch -- "shedGlobal": every in-flight resolution slot is     *)
+(* held (errResolutionCapacity), "shedZone": the root zone's in-flight      *)
+(* quota is used up (errZoneCapacity) -- so the reply has one shape: a      *)
+(* SERVFAIL without records or SOA, AD clear, carrying EDE 22 (an "other"   *)
+(* EDE) exactly when the client sent EDNS, and the request-local mark is     *)
+(* whatever DNSHandler.handle attaches to it.  ShedMarkLost is the model     *)
+(* mutant (the mark does not reach dns64: the SERVFAIL looks like a plain    *)
+(* upstream failure); MC_DecideShed_neg.cfg overrides it and must violate    *)
+(* NeverOverFailure.                                                        *)
 (***************************************************************************)
 EXTENDS Integers, Sequences, FiniteSets, TLC
 
@@ -91,10 +104,17 @@ NoA == [kind |-> "na", recs |-> <<>>, chain |-> "none", ad |-> 0]
 NoOut == [kind |-> "na", rcode |-> "na", ad |-> 0, ede |-> "none", ttl |-> -1, syn |-> <<>>,
           owner |-> "na", stripped |-> 0, alook |-> 0]
 
+(* request-local failures produced by the real resolver handler's load-shed branch *)
+ShedMarks == {"shedGlobal", "shedZone"}
+ShedMarkLost == FALSE          \* model mutant switch (definition override in MC_DecideShed_neg.cfg)
+ShedDown(qq, m) == Down(0, "SERVFAIL", "none", IF qq.edns = 1 THEN "other" ELSE "none", m, "none", "none", 0, <<>>)
+
 (* the three "never synthesise over this" classes of the property *)
 DnssecFail(d) == d.rcode = "SERVFAIL" /\ d.ede = "dnssec"
 CachedFail(d) == d.mark = "cachedMeta" \/ (d.rcode = "SERVFAIL" /\ d.ede = "cached")
-LocalFail(d)  == d.mark \in {"localAttempt", "localDeadline"}
+LocalFail(d)  == d.mark \in {"localAttempt", "localDeadline"} \cup ShedMarks
+(* what dns64 can see of it (RequestLocalFailureForResponse on its own context) *)
+SeenLocalFail(d) == LocalFail(d) /\ ~(ShedMarkLost /\ d.mark \in ShedMarks)
 UsableNative(d) == d.rcode = "NOERROR" /\ d.native \in {"usable", "mixed"}
 
 (* responseWriter.WriteMsg up to the synthesis call *)
@@ -103,7 +123,7 @@ Early(d) ==
   ELSE IF d.rcode = "NXDOMAIN" THEN "pass"
   ELSE IF DnssecFail(d) THEN "pass"
   ELSE IF CachedFail(d) THEN "pass"
-  ELSE IF LocalFail(d) THEN "pass"
+  ELSE IF SeenLocalFail(d) THEN "pass"
   ELSE IF d.rcode = "SERVFAIL" /\ d.work = "enforce" THEN "workfail"
   ELSE IF d.rcode = "NOERROR" /\ d.native = "usable" THEN "pass"
   ELSE IF d.rcode = "NOERROR" /\ d.native = "mixed" THEN "filtered"
@@ -194,9 +214,10 @@ DownstreamStep(d) ==
 Downstream ==
   /\ phase = "query" /\ ~PtrTranslated(q, cfg)
   /\ IF Wrapped(q)
-       THEN \E t \in 0..1, rn \in RcodeNative, e \in Edes(q), w \in WorkSet, c \in DownChains,
-               a \in 0..1, s \in SoaSet :
-              \E m \in Marks(rn[1]) : DownstreamStep(Down(t, rn[1], rn[2], e, m, w, c, a, s))
+       THEN \/ \E t \in 0..1, rn \in RcodeNative, e \in Edes(q), w \in WorkSet, c \in DownChains,
+                  a \in 0..1, s \in SoaSet :
+                 \E m \in Marks(rn[1]) : DownstreamStep(Down(t, rn[1], rn[2], e, m, w, c, a, s))
+            \/ \E m \in ShedMarks : DownstreamStep(ShedDown(q, m))
        ELSE \E p \in Probes : DownstreamStep(ProbeDown(p))
 
 ALookupStep(a) ==
